@@ -113,7 +113,17 @@ pub fn families(prop: &str, tier: Tier) -> Vec<Cfg> {
             b.max_conns = 2;
             b.max_reqs = 3;
             b.dev = if q { 1 } else { 2 };
-            vec![a, b]
+            // exchanges that share the in-flight list with unacknowledged SUBSCRIBE / UNSUBSCRIBE / QoS 1 entries
+            let mut c = Cfg::base("C03-qos2-among-other-unacknowledged-requests");
+            c.props = vec!["C03"];
+            c.ops = vec![OpK::Sub, OpK::Pub2, OpK::Unsub, OpK::Pub1, OpK::Poll, OpK::DropConn];
+            c.io = IoMenu::benign();
+            c.broker.ack_fail = true;
+            c.max_ops = if q { 8 } else { 10 };
+            c.max_conns = 2;
+            c.max_reqs = if q { 3 } else { 4 };
+            c.dev = 0;
+            vec![a, b, c]
         }
         "C04" => {
             let mut a = Cfg::base("C04-inbound-qos012-interleaved");
@@ -134,7 +144,8 @@ pub fn families(prop: &str, tier: Tier) -> Vec<Cfg> {
             let mut b = Cfg::base("C04-arena-full");
             b.props = vec!["C04"];
             b.tx = 40;
-            b.payload_sizes = vec![24];
+            // 32 bytes (8 left in the arena) and 35 bytes (5 left: less than any acknowledgement needs)
+            b.payload_sizes = vec![24, 27];
             b.ops = vec![OpK::Pub1, OpK::Poll, OpK::DropConn];
             b.io = IoMenu::benign();
             b.io.write_pending = true;
